@@ -90,6 +90,7 @@ uint64_t sim_fiber_switches_on_thread(int t);
 
 /* ---- allocator oracle ---- */
 void sim_mem_hold(void* p); /* a later free() of p is recorded (ledger, ghosts) but the memory stays readable */
+void* sim_alloc_high(size_t n); /* zeroed block more than 2 GiB above the ordinary heap blocks */
 int sim_mem_is_live(const void* p);
 int sim_mem_is_freed(const void* p);
 size_t sim_live_blocks(void);
